@@ -203,8 +203,12 @@ def _install_builtins():
 def load_instrumented_copy(modname, alias, **opts):
     """Load module `modname`'s source under the name `alias` with the rewrite (used for stdlib posixpath)."""
     spec = importlib.util.find_spec(modname)
-    loader = _Loader(alias, spec.origin, opts)
-    spec2 = importlib.util.spec_from_loader(alias, loader, origin=spec.origin)
+    origin = spec.origin
+    if not origin or not os.path.exists(origin):
+        import sysconfig          # frozen stdlib module: its source still ships in the stdlib directory
+        origin = os.path.join(sysconfig.get_path("stdlib"), modname.replace(".", "/") + ".py")
+    loader = _Loader(alias, origin, opts)
+    spec2 = importlib.util.spec_from_loader(alias, loader, origin=origin)
     mod = importlib.util.module_from_spec(spec2)
     sys.modules[alias] = mod
     loader.exec_module(mod)
